@@ -53,7 +53,7 @@ func Shape(r *rand.Rand, shape int, ids []string, types []sbom.Edge_Type) (edges
 	if n == 0 {
 		return nil, nil, "empty"
 	}
-	switch shape % 14 {
+	switch shape % 15 {
 	case 0:
 		name = "singleton-or-isolated"
 		roots = []string{ids[0]}
@@ -155,6 +155,20 @@ func Shape(r *rand.Rand, shape int, ids []string, types []sbom.Edge_Type) (edges
 		if n == 1 {
 			add(ids[0], types[0], ids[0])
 			add(ids[0], types[len(types)-1], ids[0])
+		}
+		roots = []string{ids[0]}
+	case 13:
+		name = "repeated-identical-edges"
+		// the same relationship stated by two separate stored edges (what a reader produces for a repeated statement)
+		// (a binary tree, so that containment stays a forest)
+		t := types[0]
+		for j := 1; j < n; j++ {
+			add(ids[(j-1)/2], t, ids[j])
+		}
+		for j := 1; j < n; j++ {
+			if r.Intn(2) == 0 {
+				add(ids[(j-1)/2], t, ids[j])
+			}
 		}
 		roots = []string{ids[0]}
 	default:
@@ -355,7 +369,7 @@ func UniqueIDs(r *rand.Rand, n int, mk func(*rand.Rand) string) []string {
 }
 
 // SPDXDoc draws a document of the SPDX-representable class. k forces coverage:
-// edge type 1+k%44 and checksum algorithm k%16 appear in the document, the shape is k%14.
+// edge type 1+k%44 and checksum algorithm k%16 appear in the document, the shape is k%15.
 func SPDXDoc(r *rand.Rand, k, maxNodes int) (*sbom.Document, string) {
 	doc := sbom.NewDocument()
 	doc.Metadata.Id = "urn:uuid:" + hexish(r)
